@@ -173,6 +173,21 @@ Theorem C12_support_margin_equivariant :
 Proof. exact support_margin_equivariant. Qed.
 Print Assumptions C12_support_margin_equivariant.
 
+Theorem C12_support_disk_equivariant :
+  forall (Rg : M3 R) (t d c : V3R) (r : R) (n : V3R),
+  is_rotation Rg -> dot n n = 1 ->
+  support_disk (mulMV Rg d) (rigid Rg t c) r (mulMV Rg n) = rigid Rg t (support_disk d c r n).
+Proof. exact support_disk_equivariant. Qed.
+Print Assumptions C12_support_disk_equivariant.
+
+(** the disk's support point does not depend on the plane basis the code constructs *)
+Theorem C12_support_disk_closed_form :
+  forall (d c : V3R) (r : R) (n : V3R), dot n n = 1 ->
+  support_disk d c r n =
+  (let w := vsub d (vscale (dot d n) n) in if Reqb (norm w) 0 then c else vadd c (vscale (r / norm w) w)).
+Proof. exact support_disk_closed_form. Qed.
+Print Assumptions C12_support_disk_closed_form.
+
 Theorem C12_support_hull_equivariant :
   forall (Rg : M3 R) (t : V3R),
   is_rotation Rg ->
@@ -397,15 +412,6 @@ Theorem C12_point_to_circle_rigid :
   map2 Rg t (point_to_circle p c r n eps).
 Proof. exact point_to_circle_rigid. Qed.
 Print Assumptions C12_point_to_circle_rigid.
-
-Theorem C12_point_to_circle_dist_rigid :
-  forall (Rg : M3 R) (t : V3R),
-  is_rotation Rg ->
-  forall (p c : V3R) (r : R) (n : V3R) (eps : R),
-  fst (point_to_circle (rigid Rg t p) (rigid Rg t c) r (mulMV Rg n) eps) =
-  fst (point_to_circle p c r n eps).
-Proof. exact point_to_circle_dist_rigid. Qed.
-Print Assumptions C12_point_to_circle_dist_rigid.
 
 Theorem C12_point_to_box_rigid :
   forall (Rg : M3 R) (t : V3R),
